@@ -289,9 +289,14 @@ def build_harness(race=False, instrument=False, timeout=900, pid=None):
         return exe, "cached " + key
     # drop stale caches (disk is limited)
     if os.path.isdir(CACHE):
-        olds = sorted(glob.glob(os.path.join(CACHE, "harness-*")), key=os.path.getmtime)
+        def _mt(p):          # another build may be removing the same stale directory right now
+            try:
+                return os.path.getmtime(p)
+            except OSError:
+                return 0.0
+        olds = sorted(glob.glob(os.path.join(CACHE, "harness-*")), key=_mt)
         for old in olds[:-30]:   # never a recent one: another check may be running from it
-            if time.time() - os.path.getmtime(old) > 3 * 3600:
+            if time.time() - _mt(old) > 3 * 3600:
                 shutil.rmtree(old, ignore_errors=True)
     os.makedirs(d, exist_ok=True)
     replace = {}
